@@ -115,6 +115,15 @@ def in_client_next(exc):
     return False
 
 
+def in_function(exc, name):
+    tb = exc.__traceback__
+    while tb is not None:
+        if tb.tb_frame.f_code.co_name == name:
+            return True
+        tb = tb.tb_next
+    return False
+
+
 CONNECT_MSG = [("Failed to receive any response", "noresponse"),
                ("Failed to receive EtherNet/IP response", "noenip"),
                ("Partial response parsed", "partial-held"),
@@ -233,8 +242,9 @@ class C13(Suite):
                      "OS socket layer: a pre-buffered prefix followed by FIN reads as data then EOF"]
 
     SCRIPT_TIMEOUT_QUIET = 0.03
-    RELAY_TIMEOUT = 2.0
-    RELAY_TIMEOUT_QUIET = 0.6
+    RELAY_TIMEOUT = 6.0             # never waited for unless the machine stalls: EOF or data arrives first
+    RELAY_TIMEOUT_QUIET = 1.5       # what a scripted silence costs
+    ATTEMPTS = 4                    # a run is repeated when the relay saw the client wait > timeout/3 for a block
 
     def __init__(self):
         self.sim = None
@@ -448,7 +458,7 @@ class C13(Suite):
         for k in (0, 27, 28, 29, 78, 100, 128, 178):
             yield dict(base, api="sync", depth=0, k=k, mode="quiet")
         # 2. seeded random exchanges, cut at boundary-biased offsets
-        nex = 150 if quick else 1500
+        nex = 150 if quick else 1100
         for _ in range(nex):
             n = rng.choice([1, 2, 3, 3, 4, 6, 8, 10])
             kinds = [rng.choice(self.KIND_POOL) for _ in range(n)]
@@ -463,7 +473,7 @@ class C13(Suite):
             for k in self.interesting_offsets(rng, reg, frames, 10 if quick else 14):
                 yield dict(case, k=k, mode="quiet" if rng.random() < 0.2 else "eof")
         # 3. mutated streams (whole, and cut)
-        nmut = 400 if quick else 5000
+        nmut = 400 if quick else 3500
         for _ in range(nmut):
             n = rng.choice([2, 3, 4, 6])
             kinds = [rng.choice(self.KIND_POOL) for _ in range(n)]
@@ -501,7 +511,13 @@ class C13(Suite):
     def relay_reference(self, ex):
         """a fault-free run through the relay: the byte streams of both directions (lengths and frame boundaries)"""
         case = dict(ex, kind="relay", dir="none", k=None, mode="eof", chop=None)
-        self.impl(case)
+        for _attempt in range(5):
+            out = self.impl(case)
+            results, end = parse_out(out)
+            if results is not None and end == "ok" and len(results) == len(ex["ops"]):
+                break
+        else:
+            raise RuntimeError("no fault-free reference run through the relay: " + out)
         obs = case["_obs"]
         return bytes.fromhex("".join(obs["s2c"])), bytes.fromhex(obs["c2s"])
 
@@ -532,7 +548,7 @@ class C13(Suite):
                     offs = sorted(set(rng.sample(range(total + 1), 200)) | set(ends))
                 for k in offs:
                     yield dict(base, dir=direction, k=k, mode="eof", chop=rng.choice([None, None, 5]))
-                qn = 8 if quick else 25
+                qn = 5 if quick else 12
                 for k in sorted(rng.sample(range(total + 1), qn)):
                     yield dict(base, dir=direction, k=k, mode="quiet")
             nframes = len(net.frame_ends(s2c))
@@ -548,7 +564,7 @@ class C13(Suite):
         quick = tier == "quick"
         self.need_sim()
         tagsets = [[0, 1, 2, 3], [4, 7, 8], [9, 10, 11, 0, 3, 7]]
-        n = 10 if quick else 120
+        n = 10 if quick else 70
         for _ in range(n):
             uses = [rng.choice(tagsets) for _ in range(rng.choice([3, 4, 5]))]
             depth = rng.choice([1, 2, 3])
@@ -559,10 +575,10 @@ class C13(Suite):
                 if r < 0.55:
                     faults.append({"dir": "s2c", "k": rng.choice([0, 5, 27, 28, 29, 40, 52, 77, 78, 79, 90, 128, 150, 200,
                                                                   rng.randrange(400), rng.randrange(900)]),
-                                   "mode": "eof" if rng.random() < 0.8 else "quiet"})
-                elif r < 0.7:
+                                   "mode": "eof" if rng.random() < 0.88 else "quiet"})
+                elif r < 0.72:
                     faults.append({"dir": "c2s", "k": rng.randrange(20, 500), "mode": "eof"})
-                elif r < 0.8:
+                elif r < 0.78:
                     faults.append({"dir": "drop", "frames": [rng.randrange(1, 6)]})
                 else:
                     faults.append(None)
@@ -619,7 +635,16 @@ class C13(Suite):
 
     # ---------------------------------------------------------------------------------------- impl
     def impl(self, c):
-        out = getattr(self, "impl_" + c["kind"])(c)
+        if c["kind"] == "script":
+            out = self.impl_script(c)
+        else:
+            # wall-clock scenarios: valid only if no block was delayed towards the client's timeout (machine load);
+            # decided from the relay's own clock, never from the outcome
+            for _attempt in range(self.ATTEMPTS):
+                out = getattr(self, "impl_" + c["kind"])(c)
+                if self.relay.max_stall() <= self.last_timeout / 3.0:
+                    break
+                self.stalled_runs = getattr(self, "stalled_runs", 0) + 1
         return out + "#spec-ok" if self.spec_applies(c) else out
 
     # mutations that leave every frame well-formed with at least one reply (the hypotheses of exchange_zip_segmented)
@@ -672,8 +697,8 @@ class C13(Suite):
         elif c.get("chop"):
             pol = {"chop": c["chop"]}
         self.relay.reset([pol])
-        quiet = c["mode"] == "quiet" and c["dir"] != "none"
-        timeout = self.RELAY_TIMEOUT_QUIET if quiet else self.RELAY_TIMEOUT
+        quiet = (c["mode"] == "quiet" and c["dir"] != "none") or c["dir"] == "drop"
+        timeout = self.last_timeout = self.RELAY_TIMEOUT_QUIET if quiet else self.RELAY_TIMEOUT
         ops = [[k, t] for k, t in c["ops"]]
         c["_obs"] = None
         line, vals = None, []
@@ -706,7 +731,7 @@ class C13(Suite):
         self.relay.reset(c["faults"])
         quiet = any(f and f.get("mode") == "quiet" for f in c["faults"]) or any(
             f and f.get("dir") == "drop" for f in c["faults"])
-        timeout = self.RELAY_TIMEOUT_QUIET if quiet else self.RELAY_TIMEOUT
+        timeout = self.last_timeout = self.RELAY_TIMEOUT_QUIET if quiet else self.RELAY_TIMEOUT
         via = proxy(host=self.relay.addr[0], port=self.relay.addr[1], timeout=timeout, depth=c["depth"],
                     multiple=c["multiple"], identity_default="C13")
         outs, uses, allvals = [], [], []
@@ -753,7 +778,7 @@ class C13(Suite):
         self.need_sim()
         self.relay.reset(c["faults"])
         quiet = any(f and f.get("mode") == "quiet" for f in c["faults"])
-        timeout = self.RELAY_TIMEOUT_QUIET if quiet else self.RELAY_TIMEOUT
+        timeout = self.last_timeout = self.RELAY_TIMEOUT_QUIET if quiet else self.RELAY_TIMEOUT
         via = proxy(host=self.relay.addr[0], port=self.relay.addr[1], timeout=timeout, depth=c["depth"],
                     multiple=c["multiple"], identity_default="C13")
         tags = [self.RELAY_OPS[i][0] for i in c["tags"]]
@@ -778,8 +803,9 @@ class C13(Suite):
 
         def failure(exc):
             del current[:]
-            connecting = via.gateway is None and not in_client_next(exc) and exc_class(exc).startswith("other")
-            events.append(("fail", relay.count - 1, exc_class(exc, connecting=connecting), via.gateway is not None))
+            connecting = in_function(exc, "open_gateway")
+            cls = exc_class(exc, connecting=connecting)
+            events.append(("fail", relay.count - 1, "connect:" + cls if connecting else cls, via.gateway is not None))
             process.check()
 
         th = threading.Thread(target=poll.run, daemon=True, kwargs=dict(
@@ -796,7 +822,7 @@ class C13(Suite):
                 outs.append(f"c{ev[1]}:{len(ev[2])};ok")
                 allvals.append({"vals": [v for _, v in ev[2]], "params": [p for p, _ in ev[2]], "gateway_after": True})
             else:
-                outs.append(f"c{ev[1]}:?;{ev[2]}")
+                outs.append(f"c{ev[1]}:{ev[2]}" if ev[2].startswith("connect:") else f"c{ev[1]}:?;{ev[2]}")
                 allvals.append({"vals": [], "gateway_after": ev[3], "failed": True})
         c["_obs"] = {"uses": [[["t", t] for t in tags]] * len(outs), "conns": self.relay_conn_events(c["faults"]),
                      "vals": allvals, "alive": th.is_alive()}
